@@ -61,7 +61,7 @@ theorem step_ok (cfg : Cfg) (db : DB) (r : Req) (hi : Inv db) : StepOK db (step 
         rw [key_unique hi hst (hsub st' hst') hkk]; exact TrialsOK.refl (hi.ids _ (hsub st' hst'))
   | setStudyState o s stt =>
     exact onStudy_ok hi o s false _ (fun _ => rfl) (fun st hn => TrialsOK.refl hn)
-  | createTrial o s t => exact onStudy_ok hi o s true _ (keeps_createTrial t) (fun st hn => createTrialBody_ok st t hn)
+  | createTrial o s t => exact onStudy_ok hi o s true _ (keeps_createTrial _ t) (fun st hn => createTrialBody_ok _ st t hn)
   | suggest o s client count alg =>
     exact onStudy_ok hi o s true _ (keeps_suggest cfg client count alg) (fun st hn => suggestBody_ok cfg st client count alg hn)
   | getOperation o s client num =>
